@@ -716,8 +716,22 @@ def oracle(ctx: Ctx, m: OptMonitor, text, opts, run):
     # (b) input heavy atoms
     recs = altloc_first([l for l in text.splitlines() if l.startswith(("ATOM", "HETATM"))])
     reported = " ".join(m.warnings)
+    # the 5'-terminal phosphate of a strand "is the one group removed by design" (5TERM; theorem five_end_has_no_phosphate):
+    # from the request, the first residue of each chain of the file when it is a nucleotide
+    NUC_NAMES = {"A", "C", "G", "U", "T", "DA", "DC", "DG", "DT", "RA", "RC", "RG", "RU", "ADE", "CYT", "GUA", "THY", "URA"}
+    first_of_chain = {}
+    for l in recs:
+        first_of_chain.setdefault(l[21], (l[22:27], l[17:20].strip()))
     for l in recs:
         name = l[12:16].strip()
+        if adding and name in ("P", "O1P", "O2P", "OP1", "OP2") and first_of_chain.get(l[21]) == (l[22:27], l[17:20].strip()) and l[17:20].strip() in NUC_NAMES:
+            key5 = (l[21].strip() if l[21] != " " else "", int(l[22:26]), l[26].strip())
+            r5 = byres.get(key5) or byres.get((l[21], int(l[22:26]), l[26].strip()))
+            if r5 is not None:
+                gone = not any(a.name in (name, {"OP1": "O1P", "OP2": "O2P"}.get(name, name)) for a in r5.atoms)
+                ctx.count("input-heavy-atoms", "5'-phosphate removed by design" if gone else "5'-phosphate kept")
+                if gone:
+                    continue
         elem = l[76:78].strip() if len(l) >= 78 else ""
         if name.startswith("H") or elem == "H" or (name[:1].isdigit() and name[1:2] == "H"):
             continue
@@ -920,6 +934,16 @@ def run(ctx: Ctx):
         term = [["--neutraln"], ["--neutralc"], ["--neutraln", "--neutralc"]][ci % 3]
         mode = [[], ["--noopt"], ["--nodebump"]][(ci // 3) % 3]
         check_case(ctx, drv, hyd, ["--ff=PARSE"] + term + mode, {"kind": "hydrogenated-rerun", "mode": " ".join(term + mode), "target": res[0][0].resn, "pos": "N"}, seen_sig)
+    # nucleic-acid strands synthesised from the NA.xml templates (DNA, RNA under full and one-letter residue names, with
+    # waters / a peptide chain), with and without --drop-water: the 5'-terminal phosphate is the one group removed by design
+    for rep in range(ctx.scale(1, 10)):
+        for ci, (text, ff, opts, feats, strands) in enumerate(c01.nucleic_requests(rng)):
+            o = [f"--ff={ff}"] + (["--drop-water"] if (ci + rep) % 2 == 1 else []) + [[], ["--noopt"], ["--nodebump"]][(ci // 2 + rep) % 3]
+            if "nucleic+waters" not in feats and (ci + rep) % 2 == 1:
+                from props.c05 import with_waters
+
+                text = with_waters(rng, text)
+            check_case(ctx, drv, text, o, {"kind": "nucleic:" + ",".join(sorted(f.split(":")[-1] for f in feats)), "mode": " ".join(o[1:]) or "default", "target": "strand", "pos": "?"}, seen_sig)
     n = ctx.scale(70, 2500)
     for ci in range(n):
         force = G.AA3[ci % len(G.AA3)] if ci % 2 == 0 else None
